@@ -62,133 +62,172 @@ Proof.
   - right. eexists. reflexivity.
 Qed.
 
-(* ---------- WlcSimple: refuted under mid-call changes, total for a static environment ---------- *)
-Definition wlc_witness : dyn :=
-  ([mkBe 1 100 100 true 0; mkBe 2 100 100 true 0],
-   [[]; [(1, 0, 0); (2, 0, 0)]]).     (* both go down between the two passes of leastConnsBalance *)
-Lemma wlc_simple_refuted : snd (wlc_simple wlc_witness) = RPanic.
-Proof. vm_compute. reflexivity. Qed.
-
-Definition static (s : dyn) : Prop := snd s = [].
-Lemma tick_static : forall s, static s -> tick s = s.
-Proof. intros [bs sc] H. unfold static in H. simpl in H. subst. reflexivity. Qed.
-
-Lemma comp_lc_refl : forall b, comp_lc b b = 0.
-Proof. intros b. unfold comp_lc. lia. Qed.
-
-Lemma lc_pass1_static : forall idx s best single s' best' single',
-  static s -> lc_pass1 idx s best single = (s', best', single') ->
-  s' = s /\
-  (forall j, best' = Some j -> (best = Some j \/ In j idx) /\
-     (best = Some j -> eligible (getb s j) = true) -> True) /\
-  (match best with Some j => eligible (getb s j) = true | None => True end ->
-   match best' with Some j => eligible (getb s j) = true /\ (best = Some j \/ In j idx) | None => best = None end).
+(* ---------- WlcSimple: total (after the fix an empty candidate list is an error, not rand % 0) ---------- *)
+Lemma wlc_simple_total : forall s, returned (snd (wlc_simple s)).
 Proof.
-  induction idx as [|i r IH]; intros s best single s' best' single' Hs H; simpl in H.
-  - inversion H; subst. split; [reflexivity|]. split; [intros; exact I|].
-    intros Hb. destruct best'; [split; [exact Hb|left; reflexivity]|reflexivity].
-  - rewrite (tick_static s Hs) in H.
-    destruct (eligible (getb s i)) eqn:E; simpl in H.
-    + destruct best as [j|].
-      * destruct (comp_lc (getb s j) (getb s i) >? 0).
-        -- apply IH in H; [|exact Hs]. destruct H as [H1 [_ H3]]. split; [exact H1|]. split; [intros; exact I|].
-           intros _. specialize (H3 E). destruct best'; [|discriminate].
-           destruct H3 as [He [Hj|Hj]]; split; try exact He; right; [inversion Hj; subst; left; reflexivity|right; exact Hj].
-        -- destruct (comp_lc (getb s j) (getb s i) =? 0);
-           (apply IH in H; [|exact Hs]; destruct H as [H1 [_ H3]]; split; [exact H1|]; split; [intros; exact I|];
-            intros Hb; specialize (H3 Hb); destruct best'; [|discriminate];
-            destruct H3 as [He [Hj|Hj]]; split; try exact He; [left; exact Hj|right; right; exact Hj]).
-      * apply IH in H; [|exact Hs]. destruct H as [H1 [_ H3]]. split; [exact H1|]. split; [intros; exact I|].
-        intros _. specialize (H3 E). destruct best'; [|discriminate].
-        destruct H3 as [He [Hj|Hj]]; split; try exact He; right; [inversion Hj; subst; left; reflexivity|right; exact Hj].
-    + apply IH in H; [|exact Hs]. destruct H as [H1 [_ H3]]. split; [exact H1|]. split; [intros; exact I|].
-      intros Hb. specialize (H3 Hb). destruct best'.
-      * destruct H3 as [He [Hj|Hj]]; split; try exact He; [left; exact Hj|right; right; exact Hj].
-      * exact H3.
-Qed.
-
-Lemma lc_pass2_static_in : forall idx s j acc s' c,
-  static s -> lc_pass2 idx s j acc = (s', c) ->
-  eligible (getb s j) = true -> (In j idx \/ In j acc) -> In j c.
-Proof.
-  induction idx as [|i r IH]; intros s j acc s' c Hs H He Hin; simpl in H.
-  - inversion H; subst. destruct Hin as [[]|Hin]. rewrite <- in_rev. exact Hin.
-  - rewrite (tick_static s Hs) in H.
-    destruct (Nat.eq_dec i j) as [->|Hne].
-    + rewrite He in H. simpl in H. rewrite comp_lc_refl in H. simpl in H.
-      eapply IH; [exact Hs|exact H|exact He|right; left; reflexivity].
-    + assert (Hin' : forall acc', (In j acc -> In j acc') -> In j r \/ In j acc').
-      { intros acc' Hacc. destruct Hin as [[Hx|Hx]|Hx]; [contradiction|left; exact Hx|right; apply Hacc; exact Hx]. }
-      destruct (eligible (getb s i)); simpl in H.
-      * destruct (comp_lc (getb s j) (getb s i) =? 0).
-        -- eapply IH; [exact Hs|exact H|exact He|apply Hin'; intros; right; assumption].
-        -- eapply IH; [exact Hs|exact H|exact He|apply Hin'; intros; assumption].
-      * eapply IH; [exact Hs|exact H|exact He|apply Hin'; intros; assumption].
-Qed.
-
-Lemma wlc_simple_static_total : forall s, static s -> returned (snd (wlc_simple s)).
-Proof.
-  intros s Hs. unfold wlc_simple, least_conns.
-  destruct (lc_pass1 (positions s) s None true) as [[s1 best] single] eqn:E1.
-  apply lc_pass1_static in E1; [|exact Hs]. destruct E1 as [-> [_ H3]]. specialize (H3 I).
-  destruct best as [j|].
-  - destruct H3 as [He [Hj|Hj]]; [discriminate|].
-    destruct single.
+  intros s. unfold wlc_simple. destruct (least_conns s) as [s1 [c|]].
+  - destruct c as [|a [|b c']].
+    + right. eexists. reflexivity.
     + left. eexists. split; [reflexivity|discriminate].
-    + destruct (lc_pass2 (positions s) s j []) as [s2 c] eqn:E2.
-      pose proof (lc_pass2_static_in _ _ _ _ _ _ Hs E2 He (or_introl Hj)) as Hin.
-      destruct c as [|a [|b c']]; [destruct Hin| |]; left; eexists; (split; [reflexivity|discriminate]).
+    + left. eexists. split; [reflexivity|discriminate].
   - right. eexists. reflexivity.
 Qed.
+(* under mid-call changes the candidate list really becomes empty: both tied backends go down between the passes *)
+Definition wlc_witness : dyn :=
+  ([mkBe 1 100 100 true 0; mkBe 2 100 100 true 0], [[]; [(1, 0, 0); (2, 0, 0)]]).
+Lemma wlc_witness_err : snd (wlc_simple wlc_witness) = RErr 1 /\ snd (wlc_simple (fst wlc_witness, [])) = ROk [1; 2].
+Proof. split; vm_compute; reflexivity. Qed.
 
-(* ---------- WrrSimple ---------- *)
-(* (a) empty list: index panic, whatever the script *)
-Lemma simple_empty_panics : forall fuel sc next, snd (simple (S fuel) ([], sc) next) = RPanic.
+(* ---------- WrrSimple: total for every list, every start position in range and every script ---------- *)
+Definition is_returned (r : res) : bool :=
+  match r with ROk (_ :: _) => true | RErr _ => true | _ => false end.
+Lemma floop_unfold : forall f s next start ad,
+  simple_loop (S f) s next start ad =
+    let n := Z.of_nat (length (fst s)) in
+    if (next <? 0) || (next >=? n) then (s, start, RPanic)
+    else
+      let i := Z.to_nat next in
+      let b := getb s i in
+      if bav b && (bcur b >? 0) then
+        (setb s i (add_cur (-1)), move_next next n, ROk [bid b])
+      else
+        let s1 := tick s in
+        let all_down' := if bav b && (bw b >? 0) then false else ad in
+        let next' := move_next next n in
+        if next' =? start then
+          if all_down' then (s1, start, RErr 1)
+          else simple_loop f (reset_cur s1) 0 0 true
+        else simple_loop f s1 next' start all_down'.
+Proof. reflexivity. Qed.
+
+Lemma in_range_false' : forall p n, 0 <= p < n -> (p <? 0) || (p >=? n) = false.
 Proof.
-  intros fuel sc next. unfold simple. simpl.
-  destruct ((next <? 0) || (next >=? 0)) eqn:E; [reflexivity|].
-  apply orb_false_iff in E. destruct E as [E1 E2]. apply Z.ltb_ge in E1. rewrite Z.geb_leb in E2.
-  apply Z.leb_gt in E2. lia.
+  intros p n H. apply orb_false_iff. split; [apply Z.ltb_ge; lia|].
+  rewrite Z.geb_leb. apply Z.leb_gt. lia.
+Qed.
+Lemma move_next_range : forall p n, 0 <= p < n -> 0 <= move_next p n < n.
+Proof. intros p n H. unfold move_next. destruct (p + 1 >=? n) eqn:G; rewrite Z.geb_leb in G; [lia|apply Z.leb_gt in G; lia]. Qed.
+
+(* a full static pass after a reset (every available positive-weight backend has credit): returns *)
+Lemma pass_after_reset : forall bs (k : nat) p fuel,
+  (forall i, bav (getb (bs, []) i) = true -> bw (getb (bs, []) i) > 0 -> bcur (getb (bs, []) i) > 0) ->
+  0 <= p -> Z.of_nat k = Z.of_nat (length bs) - p -> (k <= fuel)%nat -> (0 < k)%nat ->
+  is_returned (snd (simple_loop fuel (bs, []) p 0 true)) = true.
+Proof.
+  intros bs. induction k as [|k IH]; intros p fuel Hinv Hp Hk Hf Hpos; [lia|].
+  destruct fuel as [|f]; [lia|]. rewrite floop_unfold. cbv zeta. cbn [fst].
+  rewrite in_range_false' by lia.
+  set (b := getb (bs, []) (Z.to_nat p)).
+  destruct (bav b && (bcur b >? 0)) eqn:Eok; [reflexivity|].
+  change (tick (bs, [])) with ((bs, []) : dyn).
+  assert (Had : (if bav b && (bw b >? 0) then false else true) = true).
+  { destruct (bav b && (bw b >? 0)) eqn:G; [|reflexivity]. exfalso.
+    apply andb_true_iff in G. destruct G as [G1 G2]. rewrite Z.gtb_ltb in G2. apply Z.ltb_lt in G2.
+    pose proof (Hinv (Z.to_nat p) G1) as Hc. unfold b in *. rewrite G1 in Eok. simpl in Eok.
+    rewrite Z.gtb_ltb in Eok. apply Z.ltb_ge in Eok. lia. }
+  rewrite Had.
+  destruct (move_next p (Z.of_nat (length bs)) =? 0) eqn:Ew; [reflexivity|].
+  apply Z.eqb_neq in Ew. unfold move_next in *.
+  destruct (p + 1 >=? Z.of_nat (length bs)) eqn:G; [contradiction|]. rewrite Z.geb_leb in G. apply Z.leb_gt in G.
+  apply IH; [exact Hinv|lia|lia|lia|lia].
 Qed.
 
-(* (b) static environment: an available backend of negative weight, the positive-weight backend down *)
+Lemma reset_getb' : forall bs i,
+  getb (reset_cur (bs, [])) i =
+  mkBe (bid (getb (bs, []) i)) (bw (getb (bs, []) i)) (bw (getb (bs, []) i)) (bav (getb (bs, []) i)) (bcn (getb (bs, []) i)).
+Proof.
+  intros bs i. unfold reset_cur, getb. cbn [fst snd].
+  change be0 with ((fun b => mkBe (bid b) (bw b) (bw b) (bav b) (bcn b)) be0) at 1.
+  rewrite map_nth. reflexivity.
+Qed.
+
+Definition dist' (next start n : Z) : Z := if next <? start then start - next else n - next + start.
+
+Lemma static_returns : forall bs (d : nat) next start ad fuel,
+  0 <= next < Z.of_nat (length bs) -> 0 <= start < Z.of_nat (length bs) ->
+  Z.of_nat d = dist' next start (Z.of_nat (length bs)) ->
+  (d + length bs <= fuel)%nat ->
+  is_returned (snd (simple_loop fuel (bs, []) next start ad)) = true.
+Proof.
+  intros bs. induction d as [|d IH]; intros next start ad fuel Hnx Hst Hd Hf.
+  - unfold dist' in Hd. destruct (next <? start) eqn:G; [apply Z.ltb_lt in G|apply Z.ltb_ge in G]; lia.
+  - destruct fuel as [|f]; [lia|]. rewrite floop_unfold. cbv zeta. cbn [fst].
+    rewrite in_range_false' by lia.
+    set (b := getb (bs, []) (Z.to_nat next)).
+    destruct (bav b && (bcur b >? 0)) eqn:Eok; [reflexivity|].
+    change (tick (bs, [])) with ((bs, []) : dyn).
+    set (ad' := if bav b && (bw b >? 0) then false else ad).
+    unfold dist' in Hd.
+    destruct (move_next next (Z.of_nat (length bs)) =? start) eqn:Ewrap.
+    + destruct ad'; [reflexivity|].
+      assert (Hlen : length (fst (reset_cur (bs, []))) = length bs) by (unfold reset_cur; cbn [fst]; apply map_length).
+      change (reset_cur (bs, [])) with ((fst (reset_cur (bs, [])), []) : dyn).
+      apply (pass_after_reset (fst (reset_cur (bs, []))) (length bs) 0 f).
+      * intros i Hav Hw. change ((fst (reset_cur (bs, [])), []) : dyn) with (reset_cur (bs, [])) in *.
+        rewrite reset_getb' in *. cbn [bav bw bcur] in *. exact Hw.
+      * lia.
+      * rewrite Hlen. lia.
+      * lia.
+      * lia.
+    + apply Z.eqb_neq in Ewrap. unfold move_next in *.
+      destruct (next + 1 >=? Z.of_nat (length bs)) eqn:G; rewrite Z.geb_leb in G;
+        [apply Z.leb_le in G|apply Z.leb_gt in G];
+        destruct (next <? start) eqn:G2; [apply Z.ltb_lt in G2|apply Z.ltb_ge in G2|apply Z.ltb_lt in G2|apply Z.ltb_ge in G2];
+        (apply IH; [lia|lia| |lia]); unfold dist';
+        match goal with |- context [?x <? ?y] => destruct (Z.ltb_spec x y) end; lia.
+Qed.
+
+Lemma apply_flip_len : forall bs f, length (apply_flip bs f) = length bs.
+Proof. intros bs [[id k] v]. unfold apply_flip. apply map_length. Qed.
+Lemma apply_flips_len : forall fs bs, length (apply_flips bs fs) = length bs.
+Proof.
+  unfold apply_flips. induction fs as [|f r IH]; intros bs; simpl; [reflexivity|]. rewrite IH. apply apply_flip_len.
+Qed.
+Lemma dist_le : forall next start n, 0 <= next < n -> 0 <= start < n -> 1 <= dist' next start n <= n.
+Proof. intros. unfold dist'. destruct (Z.ltb_spec next start); lia. Qed.
+
+(* every script: the call returns within |script| + 2*len probes *)
+Lemma scripted_returns : forall sc bs next start ad fuel,
+  0 <= next < Z.of_nat (length bs) -> 0 <= start < Z.of_nat (length bs) ->
+  (length sc + 2 * length bs <= fuel)%nat ->
+  is_returned (snd (simple_loop fuel (bs, sc) next start ad)) = true.
+Proof.
+  induction sc as [|fs sc IH]; intros bs next start ad fuel Hnx Hst Hf.
+  - pose proof (dist_le next start _ Hnx Hst) as Hd.
+    apply (static_returns bs (Z.to_nat (dist' next start (Z.of_nat (length bs))))); [exact Hnx|exact Hst|rewrite Z2Nat.id; lia|].
+    simpl in Hf. lia.
+  - destruct fuel as [|f]; [simpl in Hf; lia|]. rewrite floop_unfold. cbv zeta. cbn [fst].
+    rewrite in_range_false' by lia.
+    destruct (bav (getb (bs, fs :: sc) (Z.to_nat next)) && (bcur (getb (bs, fs :: sc) (Z.to_nat next)) >? 0)); [reflexivity|].
+    change (tick (bs, fs :: sc)) with ((apply_flips bs fs, sc) : dyn).
+    assert (Hl : length (apply_flips bs fs) = length bs) by apply apply_flips_len.
+    destruct (move_next next (Z.of_nat (length bs)) =? start).
+    + destruct (if bav (getb (bs, fs :: sc) (Z.to_nat next)) && (bw (getb (bs, fs :: sc) (Z.to_nat next)) >? 0) then false else ad);
+        [reflexivity|].
+      unfold reset_cur. cbn [fst snd].
+      apply IH; rewrite ?map_length, ?Hl; simpl in Hf; lia.
+    + apply IH; rewrite ?Hl; [apply move_next_range; exact Hnx|exact Hst|simpl in Hf; lia].
+Qed.
+
+Theorem simple_total : forall bs sc next,
+  (bs = [] \/ 0 <= next < Z.of_nat (length bs)) ->
+  is_returned (snd (simple (length sc + 2 * length bs) (bs, sc) next)) = true.
+Proof.
+  intros bs sc next H. unfold simple. cbn [fst]. destruct bs as [|b r] eqn:E; [reflexivity|].
+  destruct H as [H|H]; [discriminate|]. rewrite <- E in *.
+  apply scripted_returns; [exact H|exact H|lia].
+Qed.
+
+(* the former defect witnesses now return *)
 Definition neg_witness : dyn := ([mkBe 1 (-100) (-100) true 0; mkBe 2 100 100 false 0], []).
-Lemma neg_cycle : forall fuel,
-  snd (simple_loop fuel neg_witness 0 0 false) = RFuel /\ snd (simple_loop fuel neg_witness 1 0 false) = RFuel.
-Proof.
-  induction fuel as [|f [IH0 IH1]]; [split; reflexivity|].
-  split.
-  - change (simple_loop (S f) neg_witness 0 0 false) with (simple_loop f neg_witness 1 0 false). exact IH1.
-  - change (simple_loop (S f) neg_witness 1 0 false) with (simple_loop f neg_witness 0 0 false). exact IH0.
-Qed.
-Lemma simple_livelock_static : forall fuel, snd (simple fuel neg_witness 0) = RFuel.
-Proof.
-  intros [|f]; [reflexivity|]. unfold simple.
-  change (simple_loop (S f) neg_witness 0 0 true) with (simple_loop f neg_witness 1 0 false).
-  apply neg_cycle.
-Qed.
-
-(* (c) all weights positive; one availability flip between two probes of one call *)
 Definition flip_witness : dyn :=
   ([mkBe 1 100 0 true 0; mkBe 2 100 100 false 0], [[(1, 0, 0)]]).
-Definition flip_after : dyn := ([mkBe 1 100 100 false 0; mkBe 2 100 100 false 0], []).
-Lemma flip_cycle : forall fuel,
-  snd (simple_loop fuel flip_after 0 0 false) = RFuel /\ snd (simple_loop fuel flip_after 1 0 false) = RFuel.
-Proof.
-  induction fuel as [|f [IH0 IH1]]; [split; reflexivity|].
-  split.
-  - change (simple_loop (S f) flip_after 0 0 false) with (simple_loop f flip_after 1 0 false). exact IH1.
-  - change (simple_loop (S f) flip_after 1 0 false) with (simple_loop f flip_after 0 0 false). exact IH0.
-Qed.
-Lemma simple_livelock_one_flip : forall fuel, snd (simple fuel flip_witness 0) = RFuel.
-Proof.
-  intros [|[|f]]; [reflexivity|reflexivity|]. unfold simple.
-  change (simple_loop (S (S f)) flip_witness 0 0 true) with (simple_loop f flip_after 0 0 false).
-  apply flip_cycle.
-Qed.
-(* the same state without the flip returns *)
-Lemma simple_no_flip_returns : snd (simple 5 (fst flip_witness, []) 0) = ROk [1].
-Proof. vm_compute. reflexivity. Qed.
+Lemma former_witnesses :
+  snd (simple (simple_fuel neg_witness) neg_witness 0) = RErr 1 /\
+  snd (simple (simple_fuel flip_witness) flip_witness 0) = RErr 1 /\
+  snd (simple 5 (fst flip_witness, []) 0) = ROk [1] /\
+  snd (simple 0 ([], []) 0) = RErr 1.
+Proof. repeat split; vm_compute; reflexivity. Qed.
 
 (* ---------- every model result is well-shaped: ROk never carries an empty id list ---------- *)
 Definition res_wf (r : res) : Prop := match r with ROk ids => ids <> [] | _ => True end.
@@ -200,7 +239,7 @@ Proof.
   destruct ((next <? 0) || (next >=? Z.of_nat (length (fst s)))); [exact I|].
   destruct (bav (getb s (Z.to_nat next)) && (bcur (getb s (Z.to_nat next)) >? 0)); [simpl; discriminate|].
   destruct (move_next next (Z.of_nat (length (fst s))) =? start).
-  - destruct (if bav (getb s (Z.to_nat next)) && negb (bw (getb s (Z.to_nat next)) =? 0) then false else ad);
+  - destruct (if bav (getb s (Z.to_nat next)) && (bw (getb s (Z.to_nat next)) >? 0) then false else ad);
       [exact I|apply IH].
   - apply IH.
 Qed.
@@ -213,7 +252,8 @@ Lemma balance_wf : forall algo h sc r, res_wf (snd (balance algo h sc r)).
 Proof.
   intros algo h sc r. unfold balance.
   destruct (algo =? 0).
-  - unfold simple. pose proof (simple_loop_wf (simple_fuel (backends r, sc)) (backends r, sc) (nxt r) (nxt r) true) as H.
+  - unfold simple. cbn [fst]. destruct (backends r) as [|b0 r0] eqn:Eb; [exact I|]. rewrite <- Eb.
+    pose proof (simple_loop_wf (simple_fuel (backends r, sc)) (backends r, sc) (nxt r) (nxt r) true) as H.
     destruct (simple_loop _ _ _ _ _) as [[s1 nx] o]. exact H.
   - destruct (algo =? 2).
     + pose proof (sticky_total h (backends r, sc)) as H. destruct (sticky h _) as [s1 o]. apply returned_wf. exact H.
@@ -278,162 +318,13 @@ Proof.
   eapply run_ops_entries. exact E.
 Qed.
 
-(* ---------- WrrSimple in a static environment with non-negative weights: bounded enumeration ----------
-   all lists of 1..3 backends with weight in {0,100,200}, current in {0,1,100}, any availability,
-   every start position: the call returns within 2*len+1 probes *)
-Definition small_bes : list be :=
-  flat_map (fun w => flat_map (fun c => [mkBe 0 w c true 0; mkBe 0 w c false 0]) [0; 1; 100]) [0; 100; 200].
-Definition small_lists : list (list be) :=
-  let l1 := map (fun b => [b]) small_bes in
-  let l2 := flat_map (fun b => map (fun l => b :: l) l1) small_bes in
-  let l3 := flat_map (fun b => map (fun l => b :: l) l2) small_bes in
-  l1 ++ l2 ++ l3.
-Definition is_returned (r : res) : bool :=
-  match r with ROk (_ :: _) => true | RErr _ => true | _ => false end.
-Definition simple_small_ok (bs : list be) : bool :=
-  forallb (fun k => is_returned (snd (simple (2 * length bs + 1) (bs, []) (Z.of_nat k)))) (seq 0 (length bs)).
-Lemma simple_partial_small : forallb simple_small_ok small_lists = true.
-Proof. vm_compute. reflexivity. Qed.
-Lemma simple_partial_bounded : forall bs k,
-  In bs small_lists -> (k < length bs)%nat ->
-  is_returned (snd (simple (2 * length bs + 1) (bs, []) (Z.of_nat k))) = true.
-Proof.
-  intros bs k Hin Hk. pose proof simple_partial_small as H.
-  rewrite forallb_forall in H. specialize (H bs Hin). unfold simple_small_ok in H.
-  rewrite forallb_forall in H. apply H. apply in_seq. lia.
-Qed.
-
 (* non-vacuity examples *)
 Lemma ex_smooth_flip :
   snd (smooth [0%nat; 1%nat] ([mkBe 1 100 100 true 0; mkBe 2 200 200 true 0], [[(2, 0, 0)]])) = ROk [1]
   /\ snd (smooth [0%nat; 1%nat] ([mkBe 1 100 100 true 0; mkBe 2 200 200 true 0], [])) = ROk [2].
 Proof. split; vm_compute; reflexivity. Qed.
-Lemma ex_small_lists : Z.of_nat (length small_lists) = 6174.
-Proof. vm_compute. reflexivity. Qed.
 Lemma ex_wire :
   let i := VL [VL [VL [VZ 1; VZ 1]; VL [VZ 2; VZ 2]];
                VL [VL [VZ 2; VZ 2; VZ 0]; VL [VZ 1; VZ 0; VB []; VL [VL [VL [VZ 1; VZ 0; VZ 0]]]]; VL [VZ 1; VZ 1; VB []; VL []]]] in
   kf_C05 i = 0 /\ run_C05 i <> VErr 0.
 Proof. split; vm_compute; [reflexivity|discriminate]. Qed.
-
-(* ---------- WrrSimple in a static environment with non-negative weights: general proof ---------- *)
-Lemma loop_unfold : forall f s next start ad,
-  simple_loop (S f) s next start ad =
-    let n := Z.of_nat (length (fst s)) in
-    if (next <? 0) || (next >=? n) then (s, start, RPanic)
-    else
-      let i := Z.to_nat next in
-      let b := getb s i in
-      if bav b && (bcur b >? 0) then
-        (setb s i (add_cur (-1)), move_next next n, ROk [bid b])
-      else
-        let s1 := tick s in
-        let all_down' := if bav b && negb (bw b =? 0) then false else ad in
-        let next' := move_next next n in
-        if next' =? start then
-          if all_down' then (s1, start, RErr 1)
-          else simple_loop f (reset_cur s1) 0 0 all_down'
-        else simple_loop f s1 next' start all_down'.
-Proof. reflexivity. Qed.
-
-Lemma in_range_false : forall p n, 0 <= p < n -> (p <? 0) || (p >=? n) = false.
-Proof.
-  intros p n H. apply orb_false_iff. split; [apply Z.ltb_ge; lia|].
-  rewrite Z.geb_leb. apply Z.leb_gt. lia.
-Qed.
-
-(* linear scan from position p with brr.next = 0: an available backend with credit at or after p is found *)
-Lemma scan_finds : forall bs (k : nat) p ad fuel,
-  0 <= p -> Z.of_nat k = Z.of_nat (length bs) - p -> (k <= fuel)%nat ->
-  (exists i : nat, p <= Z.of_nat i < Z.of_nat (length bs) /\
-                   bav (getb (bs, []) i) = true /\ bcur (getb (bs, []) i) > 0) ->
-  is_returned (snd (simple_loop fuel (bs, []) p 0 ad)) = true.
-Proof.
-  intros bs. induction k as [|k IH]; intros p ad fuel Hp Hk Hf [i [Hi [Hav Hcur]]]; [lia|].
-  destruct fuel as [|f]; [lia|]. rewrite loop_unfold. cbv zeta. cbn [fst].
-  rewrite in_range_false by lia.
-  destruct (bav (getb (bs, []) (Z.to_nat p)) && (bcur (getb (bs, []) (Z.to_nat p)) >? 0)) eqn:Eok; [reflexivity|].
-  assert (Hne : Z.of_nat i <> p).
-  { intros <-. rewrite Nat2Z.id in Eok. rewrite Hav in Eok. simpl in Eok. apply Z.gtb_ltb in Eok || idtac.
-    destruct (bcur (getb (bs, []) i) >? 0) eqn:G; [discriminate|]. rewrite Z.gtb_ltb in G. apply Z.ltb_ge in G. lia. }
-  assert (Hmv : move_next p (Z.of_nat (length bs)) = p + 1).
-  { unfold move_next. destruct (p + 1 >=? Z.of_nat (length bs)) eqn:G; [|reflexivity].
-    rewrite Z.geb_leb in G. apply Z.leb_le in G. lia. }
-  rewrite Hmv. destruct (p + 1 =? 0) eqn:G; [apply Z.eqb_eq in G; lia|].
-  change (tick (bs, [])) with ((bs, []) : dyn).
-  apply IH; [lia|lia|lia|]. exists i. split; [lia|split; assumption].
-Qed.
-
-Definition dist (next start n : Z) : Z := if next <? start then start - next else n - next + start.
-
-Lemma reset_getb : forall bs i,
-  getb (reset_cur (bs, [])) i =
-  mkBe (bid (getb (bs, []) i)) (bw (getb (bs, []) i)) (bw (getb (bs, []) i)) (bav (getb (bs, []) i)) (bcn (getb (bs, []) i)).
-Proof.
-  intros bs i. unfold reset_cur, getb. cbn [fst snd].
-  change be0 with ((fun b => mkBe (bid b) (bw b) (bw b) (bav b) (bcn b)) be0) at 1.
-  rewrite map_nth. reflexivity.
-Qed.
-
-Lemma phase1 : forall bs (d : nat) next start ad fuel,
-  (forall i, 0 <= bw (getb (bs, []) i)) ->
-  0 <= next < Z.of_nat (length bs) -> 0 <= start < Z.of_nat (length bs) ->
-  Z.of_nat d = dist next start (Z.of_nat (length bs)) ->
-  (d + length bs + 1 <= fuel)%nat ->
-  (ad = false -> exists i : nat, Z.of_nat i < Z.of_nat (length bs) /\
-                   bav (getb (bs, []) i) = true /\ bw (getb (bs, []) i) > 0) ->
-  is_returned (snd (simple_loop fuel (bs, []) next start ad)) = true.
-Proof.
-  intros bs. induction d as [|d IH]; intros next start ad fuel Hw Hnx Hst Hd Hf Had.
-  - unfold dist in Hd. destruct (next <? start) eqn:G; [apply Z.ltb_lt in G|apply Z.ltb_ge in G]; lia.
-  - destruct fuel as [|f]; [lia|]. rewrite loop_unfold. cbv zeta. cbn [fst].
-    rewrite in_range_false by lia.
-    set (b := getb (bs, []) (Z.to_nat next)).
-    destruct (bav b && (bcur b >? 0)) eqn:Eok; [reflexivity|].
-    change (tick (bs, [])) with ((bs, []) : dyn).
-    set (ad' := if bav b && negb (bw b =? 0) then false else ad).
-    assert (Had' : ad' = false -> exists i : nat, Z.of_nat i < Z.of_nat (length bs) /\
-                   bav (getb (bs, []) i) = true /\ bw (getb (bs, []) i) > 0).
-    { unfold ad'. destruct (bav b && negb (bw b =? 0)) eqn:G.
-      - intros _. apply andb_true_iff in G. destruct G as [G1 G2]. apply negb_true_iff in G2. apply Z.eqb_neq in G2.
-        exists (Z.to_nat next). split; [rewrite Z2Nat.id; lia|]. split; [exact G1|].
-        pose proof (Hw (Z.to_nat next)) as Hwn. unfold b in *. lia.
-      - exact Had. }
-    unfold dist in Hd.
-    destruct (move_next next (Z.of_nat (length bs)) =? start) eqn:Ewrap.
-    + destruct ad' eqn:Ead; [reflexivity|].
-      destruct (Had' eq_refl) as [i [Hi [Hav Hwi]]].
-      assert (Hlen : length (fst (reset_cur (bs, []))) = length bs) by (unfold reset_cur; cbn [fst]; apply map_length).
-      pose proof (scan_finds (fst (reset_cur (bs, []))) (length bs) 0 false f) as S.
-      change (reset_cur (bs, [])) with ((fst (reset_cur (bs, [])), []) : dyn).
-      apply S; [lia|rewrite Hlen; lia|lia|].
-      exists i. rewrite Hlen. split; [lia|].
-      change ((fst (reset_cur (bs, [])), []) : dyn) with (reset_cur (bs, [])).
-      rewrite reset_getb. cbn [bav bcur]. split; [exact Hav|exact Hwi].
-    + apply Z.eqb_neq in Ewrap. unfold move_next in *.
-      destruct (next + 1 >=? Z.of_nat (length bs)) eqn:G; rewrite Z.geb_leb in G;
-        [apply Z.leb_le in G|apply Z.leb_gt in G];
-        destruct (next <? start) eqn:G2; [apply Z.ltb_lt in G2|apply Z.ltb_ge in G2|apply Z.ltb_lt in G2|apply Z.ltb_ge in G2];
-        (apply IH; [exact Hw|lia|lia| |lia|exact Had']); unfold dist;
-        match goal with |- context [?x <? ?y] => destruct (Z.ltb_spec x y) end; lia.
-Qed.
-
-(* BalanceRR.Balance(WrrSimple) on a non-empty list with weights >= 0 and no concurrent change returns a backend
-   or "all backend is down" within 2*len+1 probes, from every state of the credits and every brr.next in range. *)
-Theorem simple_static_total : forall bs next,
-  (forall b, In b bs -> 0 <= bw b) -> 0 <= next < Z.of_nat (length bs) ->
-  is_returned (snd (simple (2 * length bs + 1) (bs, []) next)) = true.
-Proof.
-  intros bs next Hw Hn. unfold simple.
-  apply (phase1 bs (length bs) next next true).
-  - intros i. unfold getb. cbn [fst]. destruct (nth_in_or_default i bs be0) as [H|H]; [apply Hw; exact H|rewrite H; simpl; lia].
-  - exact Hn.
-  - exact Hn.
-  - unfold dist. rewrite Z.ltb_irrefl. lia.
-  - lia.
-  - discriminate.
-Qed.
-
-Lemma ex_partial :
-  (forall b, In b (fst flip_witness) -> 0 <= bw b) /\ snd (simple 5 (fst flip_witness, []) 0) = ROk [1].
-Proof. split; [intros b [<-|[<-|[]]]; simpl; lia|exact simple_no_flip_returns]. Qed.
